@@ -7,6 +7,7 @@ import (
 	"fmt"
 	"io"
 	"sync"
+	"time"
 
 	"github.com/mutagen-io/mutagen/pkg/agent"
 	"github.com/mutagen-io/mutagen/pkg/mutagen"
@@ -488,6 +489,13 @@ func c34() {
 			}
 		}
 	}
+	if hung < 2 {
+		if c34Interleaved(r) {
+			hung++
+		}
+		c34Concurrent(r, r.Pick(20, 400), true)
+	}
+	r.Sample(map[string]any{"scenario": "interleaved", "function": "agent.ClientHandshake", "connection_1": "first read delivers fa (05 xor ff), parked; connection 2 completes a valid handshake; then connection 1 receives 27 87", "expected": "connection 1 is rejected"})
 	r.Sample(map[string]any{"handshake": "both", "damage": damage{Dir: "s2c", Kind: "flip", At: 14, Xor: 1}, "meaning": "last byte of the server's patch version flipped on its way to the client"})
 	r.Sample(map[string]any{"handshake": "both", "damage": damage{Dir: "c2s", Kind: "truncate", At: 3}, "meaning": "the server receives the client's magic number and then EOF"})
 	r.Note("exhaustive", !r.Quick()) // every byte index in both tiers; every xor value only in thorough
@@ -495,7 +503,7 @@ func c34() {
 	r.Note("expected_client_to_server", hexs(expectedStream("both", specClientMagic)))
 	r.Assume("a half that returns (nil or error) closes its stream, as pkg/agent/dial.go and the agent process do; a cut direction delivers EOF to the receiver while the sender's writes are swallowed")
 	r.Assume("oracle as in DESIGN §5 C34: the half that consumed damaged bytes must fail; a half that consumed exactly the expected bytes may return nil even if the other half fails")
-	r.Finish("real client and server halves (magic only, version only, magic then version) through a journaling relay: clean runs; every byte index of both directions with 16 (quick: single-bit flips, complement, seeded values) / all 255 (thorough) xor values and truncation at every index; scripted peers of 12 different versions and 4 wrong magic numbers in either role; distinct = (handshake, direction, damage kind, byte index, xor) and (variant, role)", 50)
+	r.Finish("real client and server halves (magic only, version only, magic then version) through a journaling relay: clean runs; every byte index of both directions with 16 (quick: single-bit flips, complement, seeded values) / all 255 (thorough) xor values and truncation at every index; scripted peers of 12 different versions and 4 wrong magic numbers in either role; two handshakes in flight in one process: a connection whose 1..4 leading bytes are damaged delivers them with its first read, a second valid connection completes the same function (agent.Client/ServerHandshake, mutagen.Client/ServerVersionHandshake and their compositions), then the first connection receives the undamaged rest - for every split point; 24 relayed handshakes at a time, half of them damaged; distinct = (handshake, direction, damage kind, byte index, xor) and (variant, role)", 50)
 }
 
 // fieldOf names the protocol field a byte index of one direction belongs to.
@@ -507,4 +515,224 @@ func fieldOf(which string, at int) string {
 		at -= 3
 	}
 	return []string{"major", "minor", "patch"}[minInt(at/4, 2)]
+}
+
+// ---------------------------------------------------------------------------
+// Concurrent handshakes in one process.
+//
+// splitConn is a scripted connection: the first Read delivers `first`, the
+// next Read blocks until the harness opens the gate and then delivers `rest`.
+// While connection 1 is parked between its two reads, a second, valid
+// connection completes the same handshake in the same process. Whatever the
+// second one did, connection 1 consumed a damaged stream and must be rejected.
+// ---------------------------------------------------------------------------
+
+type splitConn struct {
+	first, rest []byte
+	gate        chan struct{}
+	atGate      chan struct{}
+	once        sync.Once
+	mu          sync.Mutex
+	consumed    []byte
+	wrote       []byte
+}
+
+func newSplitConn(stream []byte, splitAt int) *splitConn {
+	return &splitConn{first: append([]byte(nil), stream[:splitAt]...), rest: append([]byte(nil), stream[splitAt:]...), gate: make(chan struct{}), atGate: make(chan struct{})}
+}
+
+func (c *splitConn) Read(p []byte) (int, error) {
+	c.mu.Lock()
+	if len(c.first) > 0 {
+		n := copy(p, c.first)
+		c.first = c.first[n:]
+		c.consumed = append(c.consumed, p[:n]...)
+		c.mu.Unlock()
+		return n, nil
+	}
+	c.mu.Unlock()
+	c.once.Do(func() { close(c.atGate) })
+	select {
+	case <-c.gate:
+	case <-time.After(2 * hangBound): // the harness never parks the code under test for good
+	}
+	c.mu.Lock()
+	defer c.mu.Unlock()
+	if len(c.rest) == 0 {
+		return 0, io.EOF
+	}
+	n := copy(p, c.rest)
+	c.rest = c.rest[n:]
+	c.consumed = append(c.consumed, p[:n]...)
+	return n, nil
+}
+
+func (c *splitConn) Write(p []byte) (int, error) {
+	c.mu.Lock()
+	c.wrote = append(c.wrote, p...)
+	c.mu.Unlock()
+	return len(p), nil
+}
+
+func (c *splitConn) Close() error { return nil }
+
+type c34target struct {
+	name     string
+	run      func(io.ReadWriteCloser) error
+	incoming []byte // what a conforming peer sends to this half
+}
+
+func c34Targets() []c34target {
+	ver := versionBytes(mutagen.VersionMajor, mutagen.VersionMinor, mutagen.VersionPatch)
+	return []c34target{
+		{"agent.ClientHandshake", func(s io.ReadWriteCloser) error { return agent.ClientHandshake(s) }, specServerMagic},
+		{"agent.ServerHandshake", func(s io.ReadWriteCloser) error { return agent.ServerHandshake(s) }, specClientMagic},
+		{"mutagen.ClientVersionHandshake", mutagen.ClientVersionHandshake, ver},
+		{"mutagen.ServerVersionHandshake", mutagen.ServerVersionHandshake, ver},
+		{"client: magic then version", realClient("both"), append(append([]byte(nil), specServerMagic...), ver...)},
+		{"server: magic then version", realServer("both"), append(append([]byte(nil), specClientMagic...), ver...)},
+	}
+}
+
+// c34Interleaved runs the deterministic two-connection scenario.
+func c34Interleaved(r *vk.Run) (hung bool) {
+	for _, tg := range c34Targets() {
+		n := len(tg.incoming)
+		for corrupt := 0; corrupt <= n-1 && corrupt <= 4; corrupt++ { // corrupt = number of damaged leading bytes (0 = control)
+			for split := 1; split <= n-1; split++ {
+				if corrupt > split {
+					continue // the damaged prefix arrives completely with the first read
+				}
+				for _, x := range []byte{0xff, 0x01, 0x80} {
+					if corrupt == 0 && x != 0xff {
+						continue
+					}
+					stream := append([]byte(nil), tg.incoming...)
+					for i := 0; i < corrupt; i++ {
+						stream[i] ^= x
+					}
+					desc := map[string]any{"function": tg.name, "damaged_leading_bytes": corrupt, "xor": x, "first_read_delivers": split, "stream_to_connection_1": hexs(stream), "conforming_stream": hexs(tg.incoming)}
+					fmt.Printf("interleaved %s\n", vk.JSON(desc))
+					c1 := newSplitConn(stream, split)
+					var err1 error
+					done1 := make(chan struct{})
+					go func() { err1 = tg.run(c1); close(done1) }()
+					// Connection 1 is parked between its two reads (or has already
+					// rejected what the first read delivered) ...
+					parkedOrDone := make(chan struct{})
+					go func() {
+						select {
+						case <-c1.atGate:
+						case <-done1:
+						}
+						close(parkedOrDone)
+					}()
+					if res := c34health.waitDone(parkedOrDone, hangBound); res != "ok" {
+						if res == "hang" {
+							r.Violation(map[string]string{"check": "handshake-hung", "case": "interleaved"}, "the handshake neither returned nor asked for the rest of its input", desc)
+						} else {
+							r.Inconclusive("scheduler-unhealthy")
+						}
+						close(c1.gate)
+						return true
+					}
+					parked := false
+					select {
+					case <-c1.atGate:
+						parked = true
+					default:
+					}
+					// ... a second, valid connection completes the same handshake ...
+					c2 := newSplitConn(tg.incoming, n)
+					close(c2.gate)
+					err2 := tg.run(c2)
+					// ... and connection 1 gets the (good) rest of its stream.
+					close(c1.gate)
+					if res := c34health.waitDone(done1, hangBound); res != "ok" {
+						if res == "hang" {
+							r.Violation(map[string]string{"check": "handshake-hung", "case": "interleaved"}, "the parked handshake did not complete", desc)
+						} else {
+							r.Inconclusive("scheduler-unhealthy")
+						}
+						return true
+					}
+					if parked {
+						r.Count("interleaved_cases_parked_between_reads", 1)
+					}
+					r.Eval(1)
+					desc["connection_1_consumed"] = hexs(c1.consumed)
+					desc["connection_1_result"] = fmt.Sprint(err1)
+					desc["connection_2_result"] = fmt.Sprint(err2)
+					if err2 != nil {
+						r.Violation(map[string]string{"check": "clean-handshake-rejected", "handshake": tg.name, "case": "interleaved"}, fmt.Sprintf("%s on an undamaged connection failed while another handshake was in flight: %v", tg.name, err2), desc)
+					}
+					if corrupt == 0 {
+						if err1 != nil {
+							r.Violation(map[string]string{"check": "clean-handshake-rejected", "handshake": tg.name, "case": "interleaved-split"}, fmt.Sprintf("%s failed on an undamaged stream that arrived in two reads with another handshake in between: %v", tg.name, err1), desc)
+						}
+						r.Count("interleaved_controls_accepted", 1)
+					} else {
+						if err1 == nil {
+							r.Violation(map[string]string{"check": "accepted-damaged-handshake", "case": "interleaved", "handshake": tg.name},
+								fmt.Sprintf("%s returned nil after consuming %x (a conforming peer sends %x): a second, valid handshake ran between the two reads of the damaged one", tg.name, c1.consumed, tg.incoming), desc)
+						}
+						r.Count("interleaved_damaged_rejected", 1)
+					}
+					r.Distinct(fmt.Sprintf("interleaved|%s|%d|%d|%02x", tg.name, corrupt, split, x))
+				}
+			}
+		}
+	}
+	return false
+}
+
+// c34Concurrent runs many undamaged and damaged handshakes at the same time
+// through relays. With judge=false it only produces the workload (used from
+// the race-detector build of this group as a bonus sensor).
+func c34Concurrent(r *vk.Run, rounds int, judge bool) {
+	for round := 0; round < rounds; round++ {
+		var wg sync.WaitGroup
+		for g := 0; g < 24; g++ {
+			wg.Add(1)
+			go func(g int) {
+				defer wg.Done()
+				which := []string{"both", "magic", "version"}[g%3]
+				dmg := damage{Chunk: g % 4}
+				if g%2 == 1 {
+					dir := []string{"s2c", "c2s"}[(g/2)%2]
+					dmg = damage{Dir: dir, Kind: "flip", At: (g / 4) % 3, Xor: 0xff, Chunk: 1}
+				}
+				o := runPair(realClient(which), realServer(which), dmg)
+				if !judge {
+					r.Count("handshake_pairs_under_race_detector", 1)
+					return
+				}
+				r.Eval(1)
+				if o.Hung != "" {
+					r.Inconclusive("concurrent-handshake-" + o.Hung)
+					return
+				}
+				if dmg.Dir == "" {
+					if !o.ClientNil || !o.ServerNil {
+						r.Violation(map[string]string{"check": "clean-handshake-rejected", "handshake": which, "case": "concurrent"}, fmt.Sprintf("undamaged %s handshake failed while others ran concurrently: client %q server %q", which, o.ClientErr, o.ServerErr), map[string]any{"handshake": which, "damage": dmg})
+					}
+					r.Count("concurrent_clean_accepted", 1)
+					return
+				}
+				nilRes, consumed := o.ClientNil, o.ClientRead
+				exp := expectedStream(which, specServerMagic)
+				if dmg.Dir == "c2s" {
+					nilRes, consumed, exp = o.ServerNil, o.ServerRead, expectedStream(which, specClientMagic)
+				}
+				if nilRes && !bytes.Equal(consumed, exp) {
+					r.Violation(map[string]string{"check": "accepted-damaged-handshake", "case": "concurrent", "handshake": which}, fmt.Sprintf("a half returned nil after consuming %x (conforming: %x) while other handshakes ran concurrently", consumed, exp), map[string]any{"handshake": which, "damage": dmg})
+				}
+				r.Count("concurrent_damaged_rejected", 1)
+			}(g)
+		}
+		wg.Wait()
+	}
+	if judge {
+		r.Distinct("concurrent-rounds")
+	}
 }
